@@ -61,9 +61,14 @@ def norm(desc: dict) -> dict:
     pos = desc.get('pos') or 'n' * n
     if len(pos) != n:
         raise env.HarnessError(f'pos layout {pos!r} does not fit n={n}')
+    # split: bit k set = node k lives in an extension 'g<i>x' of the graph's lexicon (node 0
+    # always stays in the base); the graph is then queried through a Wordnet over both
+    split = desc.get('split', 0) & ((1 << n) - 1) & ~1
+    if split and desc.get('words'):
+        raise env.HarnessError('split graphs carry no words')
     return {'n': n, 'mask': mask, 'inst': desc.get('inst', 0) & mask, 'pos': pos,
             'recip': bool(desc.get('recip', True)), 'ids': desc.get('ids', 'plain'),
-            'words': list(desc.get('words') or [])}
+            'words': list(desc.get('words') or []), 'split': split}
 
 
 # ---------------------------------------------------------------------------
@@ -254,22 +259,53 @@ def synset_id(i: int, desc: dict, k: int) -> str:
     return f'g{i}-s{k}'
 
 
+def _relations(i: int, d: dict, g: 'Graph', k: int, keep) -> list:
+    n = d['n']
+    rels = []
+    for j in g.succ[k]:
+        if keep(j):
+            inst = d['inst'] >> (k * n + j) & 1
+            rels.append({'target': synset_id(i, d, j),
+                         'relType': INSTANCE_HYPERNYM if inst else HYPERNYM, 'meta': None})
+    if d['recip']:
+        for p in g.pred[k]:
+            if keep(p):
+                inst = d['inst'] >> (p * n + k) & 1
+                rels.append({'target': synset_id(i, d, p),
+                             'relType': INSTANCE_HYPONYM if inst else HYPONYM, 'meta': None})
+    return rels
+
+
+def _extension(i: int, desc: dict) -> dict:
+    """Extension 'g<i>x' holding the split nodes, and the relations base nodes have to them."""
+    d = norm(desc)
+    g = Graph.of(d)
+    synsets = []
+    for k in range(d['n']):
+        if d['split'] >> k & 1:
+            ss = {'id': synset_id(i, d, k), 'ili': '', 'partOfSpeech': d['pos'][k], 'meta': None}
+            rels = _relations(i, d, g, k, lambda t: True)
+        else:
+            ss = {'id': synset_id(i, d, k), 'external': True}
+            rels = _relations(i, d, g, k, lambda t: bool(d['split'] >> t & 1))
+        if rels:
+            ss['relations'] = rels
+        synsets.append(ss)
+    return {'id': lex_id(i) + 'x', 'version': '1', 'label': f'graph {i} (extension)',
+            'language': 'en', 'email': 'lab@example.org',
+            'license': 'https://example.org/license', 'meta': None,
+            'extends': {'id': lex_id(i), 'version': '1'}, 'synsets': synsets}
+
+
 def _lexicon(i: int, desc: dict) -> dict:
     d = norm(desc)
     n = d['n']
     g = Graph.of(d)
     synsets = []
     for k in range(n):
-        rels = []
-        for j in g.succ[k]:
-            inst = d['inst'] >> (k * n + j) & 1
-            rels.append({'target': synset_id(i, d, j),
-                         'relType': INSTANCE_HYPERNYM if inst else HYPERNYM, 'meta': None})
-        if d['recip']:
-            for p in g.pred[k]:
-                inst = d['inst'] >> (p * n + k) & 1
-                rels.append({'target': synset_id(i, d, p),
-                             'relType': INSTANCE_HYPONYM if inst else HYPONYM, 'meta': None})
+        if d['split'] >> k & 1:
+            continue
+        rels = _relations(i, d, g, k, lambda t: not d['split'] >> t & 1)
         ss = {'id': synset_id(i, d, k), 'ili': '', 'partOfSpeech': d['pos'][k], 'meta': None}
         if rels:
             ss['relations'] = rels
@@ -305,11 +341,18 @@ class Lab:
         self.descs = [norm(d) for d in descs]
         self.db = env.fresh_db()
         wn.add_lexical_resource(resource(self.descs), progress_handler=None)
+        exts = [_extension(i, d) for i, d in enumerate(self.descs) if d['split']]
+        if exts:      # in a second step: an extension is skipped unless its base is installed
+            wn.add_lexical_resource({'lmf_version': '1.1', 'lexicons': exts},
+                                    progress_handler=None)
 
     def wordnet(self, i: int, **kwargs):
         import wn
         kwargs.setdefault('expand', '')
-        return wn.Wordnet(f'{lex_id(i)}:1', **kwargs)
+        spec = f'{lex_id(i)}:1'
+        if self.descs[i]['split']:
+            spec += f' {lex_id(i)}x:1'
+        return wn.Wordnet(spec, **kwargs)
 
     def ids(self, i: int) -> list:
         d = self.descs[i]
